@@ -293,7 +293,7 @@ func realMain() int {
 		defer cleanup()
 	}
 	seed := vh.SeedFromEnv()
-	rep := vh.NewReport("C16", *tier, seed, "Documents for Turtle, TriG, RDF/JSON, RDF/XML, JSON-LD, RDFa, Microdata, HTML-embedded JSON-LD and the combined HTML decoder: every document of the W3C suites shipped in the repository (thorough tier; a seeded sample of 400 per format in the quick tier); hand-written corner documents; grammar-directed documents (multi-line, CRLF, lone CR, multi-byte and astral characters, comments, several statements per line, prefixed names, relative references, blank node labels, long strings, numeric/boolean shorthand, `a`, `[ ]`, `( )`, graph names; XML/HTML character references, CDATA, nested elements, property attributes, reification, collections; JSON-LD contexts, lists, @reverse, @graph, native numbers); byte-level mutations and truncations of generated and corpus documents for Turtle, TriG, RDF/JSON, JSON-LD and RDF/XML (RDF/XML repaired to valid UTF-8: cursorio.TextWriter panics on ill-formed UTF-8, C05 finding D28). HTML family (RDFa, Microdata, HTML-embedded JSON-LD, combined decoder): corpus, corner and generated documents only, NO byte-level mutation (the third-party position bookkeeping keeps producing new failure shapes on tag soup; C16X_SOUP=1 turns it on as a development aid), so the search over malformed markup is incomplete by construction. Each document is decoded with capture off, capture on (initial offset unset / explicit zero) and capture on with a random non-zero initial offset (byte<2000, line<60, column<90); streaming decoders additionally with a reader ending in an injected error. RDF/XML: on every document the oracle's own XML scanner is compared with encoding/xml (token spans, attribute names and values up to encoding/xml's first error; a difference is reported as class oracle-selfcheck and fails the check). Histograms trait-free:<format>:<bool> say how many whole-document inputs carry none of the root-cause traits that key the known findings (violations on documents with a trait are attributed to that finding). Non-trivial = at least one statement with a range, or an error carrying an offset. Token layer (T3): single tokens with varied continuations, mutations and every-prefix truncations for the seven producers of both packages against the Lean model.")
+	rep := vh.NewReport("C16", *tier, seed, "Documents for Turtle, TriG, RDF/JSON, RDF/XML, JSON-LD, RDFa, Microdata, HTML-embedded JSON-LD and the combined HTML decoder: every document of the W3C suites shipped in the repository (thorough tier; a seeded sample of 400 per format in the quick tier); hand-written corner documents; grammar-directed documents (multi-line, CRLF, lone CR, multi-byte and astral characters, comments, several statements per line, prefixed names, relative references, blank node labels, long strings, numeric/boolean shorthand, `a`, `[ ]`, `( )`, graph names; XML/HTML character references, CDATA, nested elements, property attributes, reification, collections; JSON-LD contexts, lists, @reverse, @graph, native numbers); byte-level mutations and truncations of generated and corpus documents for Turtle, TriG, RDF/JSON, JSON-LD and RDF/XML (RDF/XML repaired to valid UTF-8: cursorio.TextWriter panics on ill-formed UTF-8, C05 finding D28). HTML family (RDFa, Microdata, HTML-embedded JSON-LD, combined decoder): corpus, corner and generated documents only, NO byte-level mutation (the third-party position bookkeeping keeps producing new failure shapes on tag soup; C16X_SOUP=1 turns it on as a development aid), so the search over malformed markup is incomplete by construction. Each document is decoded with capture off, capture on (initial offset unset / explicit zero) and capture on with a random non-zero initial offset (byte<2000, line<60, column<90); streaming decoders additionally with a reader ending in an injected error. RDF/XML: on every document the oracle's own XML scanner is compared with encoding/xml (token spans, attribute names and values up to encoding/xml's first error; a difference is reported as class oracle-selfcheck and fails the check). Histograms trait-free:<format>:<bool> say how many whole-document inputs carry none of the root-cause traits that key the known findings (violations on documents with a trait are attributed to that finding). Non-trivial = at least one statement with a range, or an error carrying an offset. Every decoder is constructed from an option LIST derived from a hash of (configuration, document): the setters permuted, cut into 1..n option values, sometimes preceded by overridden decoy setters (opts.go specOf). Option lists (T3, op offx.opts): for nine configurations (turtle, trig, ntriples, nquads, rdfjson, rdfxml, jsonld, htmldefaults, encoding/html DocumentConfig) every chain of <=3 (HTML: <=2) setter calls in every split into option values plus random lists of 1-4 options, effective configuration observed on a probe document against Model.DecoderOpts; non-trivial there = more than one option value and more than one setter. Token layer (T3): single tokens with varied continuations, mutations and every-prefix truncations for the seven producers of both packages against the Lean model.")
 	fs, err := vh.LoadFindings(*findings)
 	if err != nil {
 		fmt.Fprintln(os.Stderr, "findings:", err)
